@@ -17,7 +17,7 @@ from fractions import Fraction
 from ..model import AnalysisError, calls_in, call_name, walk_fn
 from ..symex import Symex, Obj, Raised
 from ..terms import (T, sym, t_mul, t_add, t_pow, is_num, args_of, expand_products, product_key, multiset,
-                     multiset_diff, show)
+                     multiset_diff, show, subterms)
 
 EXPLANATION = (
     "All rules evaluate the library abstractly (sa.symex) and compare values, not source text. "
@@ -383,7 +383,16 @@ class Writer:
 
     def __init__(self, ctx, cfg, defaults):
         self.ctx = ctx
-        self.sx = make_sx(ctx, "_latex", cfg, defaults)
+
+        def _print(sx, args, kw):
+            """sympy's printer dispatch: an object with a ``_latex`` method prints itself, a string is itself."""
+            x = args[1] if len(args) > 1 else kw.get("expr")
+            if isinstance(x, Obj) and x.cls and sx.find_method(x.cls, "_latex"):
+                return sx.call_method(x, "_latex", [args[0]], {}, None)
+            if isinstance(x, str):
+                return x
+            return NotImplemented
+        self.sx = make_sx(ctx, "_latex", cfg, defaults, extra={"_print": _print, "doprint": _print})
 
     @staticmethod
     def index(ix):
@@ -396,7 +405,10 @@ class Writer:
             return self.index(args[0])
         conv = tuple(tuple(self.index(i) for i in a) if isinstance(a, (tuple, list)) and not (len(a) == 3 and a[0] == "idx")
                      else self.index(a) if isinstance(a, tuple) else a for a in args)
-        return Obj(f"sympy_objects:{cls}", cls, args=conv)
+        o = Obj(f"sympy_objects:{cls}", cls, args=conv)
+        if cls != "KroneckerDelta":
+            o.attrs["name"] = args[0]       # str(Symbol) and Symbol.name are both the tensor name
+        return o
 
     def method(self, cls):
         ref = "indices:Index" if cls == "Index" else f"sympy_objects:{cls}"
@@ -407,7 +419,7 @@ class Writer:
 
     def __call__(self, cls, *args):
         fn = self.method(cls)
-        outs = self.sx.run(fn, lambda: dict(self=self.obj(cls, *args), printer=sym("printer")))
+        outs = self.sx.run(fn, lambda: dict(self=self.obj(cls, *args), printer=Obj(None, "printer")))
         if len(outs) != 1:
             raise AnalysisError(f"C18: printer of {cls} is not deterministic on {args}")
         o = outs[0]
@@ -620,13 +632,13 @@ def r18a(ctx, readers, cfgs):
                         cases = [nonsym(name, (i,)), nonsym(name, (p, qb, a))]
                     for n, x in enumerate(cases):
                         r = rd(x.tex)
-                        got = r.val.args[0] if r.kind == "value" and isinstance(r.val, T) and r.val.op == "obj" else repr(r)
-                        ctx.check(rule, sites[0], r.kind == "value" and same_value(r.val, x.val),
+                        objs = [t for t in subterms(r.val) if t.op == "obj" and t.args[0] not in ("Symbol",)] if r.kind == "value" else []
+                        got = (objs[0].args[0], objs[0].args[1]) if len(objs) == 1 else None
+                        ctx.check(rule, sites[0], got == (cls, name),
                                   f"tensor_names.{f_} (`{name}`): written as {cls}, `{x.tex}` imported as {cls}",
                                   f"the library builds tensors named tensor_names.{f_} as {cls} ({len(sites)} site(s)), but "
-                                  f"import_from_sympy_latex turns `{x.tex}` [{tag} names] into {got}"
-                                  f"{'' if got == cls or r.kind != 'value' else ': the imported expression has another tensor kind'}"
-                                  f"{' (' + repr(r) + ')' if got == cls else ''}",
+                                  f"import_from_sympy_latex turns `{x.tex}` [{tag} names] into "
+                                  f"{'a ' + got[0] + ' named ' + repr(got[1]) + ': the imported expression has another tensor kind' if got else repr(r)}",
                                   fn=READER, key=f"{f_}{e and ' ' + e}: {cls} case {n} [{tag}]")
         # names outside the configuration: antisymmetric / non-symmetric by the number of index groups; group order
         for name in ("x", "Zero", "t2eri1", cfg["gs_amplitude"] + "x", "a1"):
@@ -736,12 +748,12 @@ def r18c(ctx, readers, cfgs):
 
 # ------------------------------------------------------------------ R18d
 
-def r18d(ctx, rd):
+def r18d(ctx, rd, cfg):
     rule = "R18d"
-    V = tensor("AntiSymmetricTensor", "V", (i, j), (a, b))
-    t1 = tensor("Amplitude", "t1", (a, b), (i, jb))
-    v = tensor("SymmetricTensor", "v", (i, a), (j, b))
-    ei, ea, ej = nonsym("e", (i,)), nonsym("e", (a,)), nonsym("e", (j,))
+    V = tensor("AntiSymmetricTensor", cfg["eri"], (i, j), (a, b))
+    t1 = tensor("Amplitude", cfg["gs_amplitude"] + "1", (a, b), (i, jb))
+    v = tensor("SymmetricTensor", cfg["coulomb"], (i, a), (j, b))
+    ei, ea, ej = (nonsym(cfg["orb_energy"], (x,)) for x in (i, a, j))
     dl = delta(i, ia)
     cases = [
         ("single term", total((1, V))),
@@ -769,17 +781,17 @@ def r18d(ctx, rd):
         ("NO group", total((-1, prod(ei, no(prod(f(j), fd(i))))), (1, prod(V, no(prod(fd(i), fd(j), f(b), f(a))), coeff=2)))),
         ("symbols", total((1, prod(symbol("x"), V, coeff=2)), (-1, power(symbol("y"), 2)))),
         ("tensor powers", total((1, prod(power(V, 2), power(ei, 3))), (-1, frac(power(t1, 2), power(ea, 2))))),
-        ("delta and spin", total((1, prod(dl, tensor("AntiSymmetricTensor", "f", (ia,), (ab_,)))), (-1, prod(delta(pa, q), v)))),
+        ("delta and spin", total((1, prod(dl, tensor("AntiSymmetricTensor", cfg["fock"], (ia,), (ab_,)))), (-1, prod(delta(pa, q), v)))),
     ]
     for key, x in cases:
         r = read_check(ctx, rule, rd, x, key, f"importer arithmetic ({key})")
         if r.kind == "value":
             ctx.check(rule, rd.fn, bare_expr(r.raw), f"{key}: the result is Expr(<sum>) without assumptions",
-                      f"importing `{x.tex}` returns {show(r.raw)[:200]} instead of a bare Expr of the sum", key=f"expr {key}")
+                      f"importing `{x.tex}` returns {show(r.raw)[:200]} instead of a bare Expr of the sum", key=f"expr {key} [{rd.tag}]")
     for text in ("", "   "):
         r = rd(text)
         ctx.check(rule, rd.fn, r.kind == "value" and r.val == 0 and bare_expr(r.raw), "empty text is Expr(0)",
-                  f"importing {text!r} gives {r!r}", key=f"empty {len(text)}")
+                  f"importing {text!r} gives {r!r}", key=f"empty {len(text)} [{rd.tag}]")
     # surrounding blanks do not matter
     x = total((-1, V), (1, t1))
     read_check(ctx, rule, rd, X("  " + x.tex + " ", x.val), "padding", "leading/trailing blanks ignored")
@@ -874,4 +886,5 @@ def run(ctx):
     if ctx.want("R18c"):
         r18c(ctx, {t: reader(t) for t in cfgs}, cfgs)
     if ctx.want("R18d"):
-        r18d(ctx, reader("default"))
+        for tag in cfgs:
+            r18d(ctx, reader(tag), cfgs[tag])
